@@ -171,11 +171,13 @@ theorem has_getD (v : Option (List Pkg)) (p : Pkg) : has v p = (v.getD []).conta
 
 /-- the outcomes of `fetch` on a valid cache: the packages of view `i` (cached or re-extracted), a skip
 (file present in the view, absent from the layer's diff), or a failed run (only when cancelled) -/
-theorem fetch_cases (img : Nat → History) (cancelAt : Option Nat) (f i : Nat) (s : St) (hc : CacheOK img s.cache) :
-    (∃ s', fetch (img f) cancelAt f i s = .pkgs ((viewAt (img f) i).getD []) s' ∧ CacheOK img s'.cache) ∨
-    (fetch (img f) cancelAt f i s = .skip ∧ inDiff (img f) i = false ∧ (viewAt (img f) i).isSome = true) ∨
-    (fetch (img f) cancelAt f i s = .err ∧ cancelled cancelAt s.runs = true) := by
+theorem fetch_cases (img : Nat → History) (diff : Nat → Bool) (cancelAt : Option Nat) (f i : Nat) (s : St)
+    (hd : ∀ i, diff i = inDiff (img f) i) (hc : CacheOK img s.cache) :
+    (∃ s', fetch (img f) diff cancelAt f i s = .pkgs ((viewAt (img f) i).getD []) s' ∧ CacheOK img s'.cache) ∨
+    (fetch (img f) diff cancelAt f i s = .skip ∧ inDiff (img f) i = false ∧ (viewAt (img f) i).isSome = true) ∨
+    (fetch (img f) diff cancelAt f i s = .err ∧ cancelled cancelAt s.runs = true) := by
   unfold fetch
+  rw [hd i]
   cases hcf : s.cache (f, i) with
   | some ps =>
     left
@@ -215,11 +217,12 @@ def Traced (img : Nat → History) (cancelAt : Option Nat) (f : Nat) (p : Pkg) (
 /-- Main invariant of the backwards loop. `cnt` layers remain (indices `cnt-1 … 0`); `last` is
 `lastScannedLayerIndex`; the package is in every view from `last` on; the layers strictly between were
 skipped, i.e. they keep the file and the file exists there. -/
-theorem loop_isOrigin (img : Nat → History) (cancelAt : Option Nat) (f : Nat) (p : Pkg) :
+theorem loop_isOrigin (img : Nat → History) (diff : Nat → Bool) (cancelAt : Option Nat) (f : Nat) (p : Pkg)
+    (hd : ∀ i, diff i = inDiff (img f) i) :
     ∀ cnt last s, cnt ≤ last → last < (img f).length → CacheOK img s.cache →
       (∀ j, last ≤ j → j < (img f).length → present (img f) j p = true) →
       (∀ k, cnt ≤ k → k < last → ∃ hk : k < (img f).length, (img f)[k] = .keep ∧ (viewAt (img f) k).isSome = true) →
-      Traced img cancelAt f p (loop (img f) cancelAt f p cnt last s) := by
+      Traced img cancelAt f p (loop (img f) diff cancelAt f p cnt last s) := by
   intro cnt
   induction cnt with
   | zero =>
@@ -243,7 +246,7 @@ theorem loop_isOrigin (img : Nat → History) (cancelAt : Option Nat) (f : Nat) 
       obtain ⟨hk, hkeep, _⟩ := hZ k (by omega) (by omega)
       exact ⟨hk, hkeep⟩
     simp only [loop]
-    rcases fetch_cases img cancelAt f i s hc with ⟨s', hf, hc'⟩ | ⟨hf, hnd, hsome⟩ | ⟨hf, hcan⟩
+    rcases fetch_cases img diff cancelAt f i s hd hc with ⟨s', hf, hc'⟩ | ⟨hf, hnd, hsome⟩ | ⟨hf, hcan⟩
     · rw [hf]
       simp only []
       by_cases hin : ((viewAt (img f) i).getD []).contains p = true
@@ -281,14 +284,15 @@ theorem loop_isOrigin (img : Nat → History) (cancelAt : Option Nat) (f : Nat) 
       exact ⟨Or.inr ⟨rfl, hcan⟩, hc⟩
 
 /-- the trace of one package from any valid shared state -/
-theorem traceC_traced (img : Nat → History) (cancelAt : Option Nat) (f : Nat) (p : Pkg) (s : St)
+theorem traceC_traced (img : Nat → History) (diff : Nat → Bool) (cancelAt : Option Nat) (f : Nat) (p : Pkg) (s : St)
+    (hd : ∀ i, diff i = inDiff (img f) i)
     (hc : CacheOK img s.cache) (hp : present (img f) ((img f).length - 1) p = true) :
-    Traced img cancelAt f p (traceC (img f) cancelAt f p s) := by
+    Traced img cancelAt f p (traceC (img f) diff cancelAt f p s) := by
   have hn : 0 < (img f).length := by
     cases hh : img f with
     | nil => rw [hh] at hp; simp [present_eq, viewAt, has] at hp
     | cons a t => simp
-  exact loop_isOrigin img cancelAt f p ((img f).length - 1) ((img f).length - 1) s (Nat.le_refl _) (by omega) hc
+  exact loop_isOrigin img diff cancelAt f p hd ((img f).length - 1) ((img f).length - 1) s (Nat.le_refl _) (by omega) hc
     (fun j h1 h2 => by
       have : j = (img f).length - 1 := by omega
       subst this; exact hp) (fun k h1 h2 => by omega)
